@@ -1237,6 +1237,27 @@ class ADict(object):
         self.val = smt.fresh(nm + '_val', VV)
 
 
+class ACounter(object):
+    """collections.Counter with SYMBOLIC contents: counts are an SMT array indexed by the canonical key; a missing key reads 0 (T6)"""
+
+    def __init__(self, cnt):
+        self.cnt = cnt
+        self.origin = 'Fresh'
+        self._d = ADict()
+
+    def py_getitem(self, interp, k, node=None):
+        return SInt(z3.Select(self.cnt, self._d.key(k)))
+
+    def py_setitem(self, interp, k, v):
+        self.cnt = z3.Store(self.cnt, self._d.key(k), to_int(v))
+
+    def py_contains(self, interp, k, node=None):
+        raise Unsupported('membership test on a symbolic Counter')
+
+    def havoc(self, interp, nm):
+        self.cnt = smt.fresh(nm + '_cnt', z3.ArraySort(V, I))
+
+
 class DictSlot(object):
     def __init__(self, d, ck):
         self.d, self.ck = d, ck
